@@ -23,6 +23,37 @@ from pyrefact import (
 )
 
 
+def _count_identifiers(root: ast.AST) -> Tuple[collections.Counter, ...]:
+    """Count how often every identifier is used as a variable, as the name of a function or class,
+    as a name that renaming does not change (parameters, global and nonlocal declarations,
+    imports, exception names), and as an attribute or keyword argument."""
+    variables = collections.Counter()
+    definitions = collections.Counter()
+    fixed_names = collections.Counter()
+    attributes = collections.Counter()
+    for node in ast.walk(root):
+        if isinstance(node, ast.Name):
+            variables[node.id] += 1
+        elif isinstance(node, (ast.FunctionDef, ast.AsyncFunctionDef, ast.ClassDef)):
+            definitions[node.name] += 1
+        elif isinstance(node, ast.arg):
+            fixed_names[node.arg] += 1
+        elif isinstance(node, (ast.Global, ast.Nonlocal)):
+            fixed_names.update(node.names)
+        elif isinstance(node, ast.alias):
+            fixed_names[(node.asname or node.name).split(".")[0]] += 1
+        elif isinstance(node, (ast.ExceptHandler, ast.MatchAs, ast.MatchStar)) and node.name:
+            fixed_names[node.name] += 1
+        elif isinstance(node, ast.MatchMapping) and node.rest:
+            fixed_names[node.rest] += 1
+        elif isinstance(node, ast.Attribute):
+            attributes[node.attr] += 1
+        elif isinstance(node, ast.keyword) and node.arg:
+            attributes[node.arg] += 1
+
+    return variables, definitions, fixed_names, attributes
+
+
 def _get_uses_of(node: ast.AST, scope: ast.AST, source: str) -> Iterable[ast.Name]:
     if isinstance(node, ast.Name):
         name = node.id
@@ -497,6 +528,43 @@ def align_variable_names_with_convention(
         for node, substitutes in renamings.items()
         if len(substitutes) == 1 and blacklisted_names.isdisjoint(substitutes)
     }
+    # A name is renamed in all the places that may refer to it, or it is left alone, and the new
+    # name must not be in use already, or be the new name of something else.
+    name_renamings = collections.defaultdict(list)
+    for node, substitute in renamings.items():
+        name = node.id if isinstance(node, ast.Name) else node.name
+        if name != substitute:
+            name_renamings[name].append((node, substitute))
+    substitute_names = collections.defaultdict(set)
+    for name, node_substitutes in name_renamings.items():
+        for _, substitute in node_substitutes:
+            substitute_names[substitute].add(name)
+    variables, definitions, fixed_names, attributes = _count_identifiers(ast_tree)
+    class_members = {
+        node
+        for classdef in core.walk(ast_tree, ast.ClassDef)
+        for stmt in classdef.body
+        for node in (stmt, *getattr(stmt, "targets", ()), getattr(stmt, "target", None))
+    }
+    for name, node_substitutes in name_renamings.items():
+        nodes = [node for node, _ in node_substitutes]
+        substitutes = {substitute for _, substitute in node_substitutes}
+        is_member = not class_members.isdisjoint(nodes)
+        if (
+            sum(isinstance(node, ast.Name) for node in nodes) != variables[name]
+            or fixed_names[name]
+            or (is_member and attributes[name])
+            or any(
+                variables[substitute]
+                or definitions[substitute]
+                or fixed_names[substitute]
+                or (is_member and attributes[substitute])
+                or len(substitute_names[substitute]) > 1
+                for substitute in substitutes
+        )):
+            for node in nodes:
+                del renamings[node]
+
     substitute_node_renamings = collections.defaultdict(set)
     for node, substitute in renamings.items():
         substitute_node_renamings[substitute].add(node)
